@@ -38,4 +38,122 @@ theorem total_remsFrom_succ (exts : Array Ext) (mx idx : List Nat) {nbF g : Nat}
     total (remsFrom exts mx idx nbF g) = (remQ exts mx idx g).length + total (remsFrom exts mx idx nbF (g + 1)) := by
   rw [remsFrom_succ exts mx idx h, total_cons]
 
+/-- State of the generator when it starts with frame `f`. -/
+structure FInv (exts : Array Ext) (mx : List Nat) (nbF f : Nat) (s : GSt) : Prop where
+  lmin : s.minIdx.length = nbF
+  lrep : s.repIdx.length = nbF
+  eq : ∀ g, f ≤ g → g < nbF → s.repIdx.getD g 0 = s.minIdx.getD g 0
+  clean : ∀ g, f ≤ g → g < nbF → Clean exts mx (s.minIdx.getD g 0) g
+  bound : ∀ g, f ≤ g → g < nbF → s.minIdx.getD g 0 ≤ exts.size
+  cur : s.currFrame ≤ f
+
+theorem remQ_mem {exts : Array Ext} {mx idx : List Nat} {g : Nat} {nbF : Nat} (hv : AllValid exts nbF) {e : Ext}
+    (he : e ∈ remQ exts mx idx g) : ValidExt nbF e ∧ e.frame.toNat = g := by
+  unfold remQ seg at he
+  rw [List.mem_filter] at he
+  obtain ⟨j, hj⟩ := List.mem_iff_getElem?.mp (List.mem_of_mem_take he.1)
+  rw [List.getElem?_drop] at hj
+  exact ⟨hv _ e (by simpa using hj), by simpa using he.2⟩
+
+theorem remsFrom_getElem {exts : Array Ext} {mx idx : List Nat} {nbF g0 i : Nat} {r : List Ext}
+    (h : (remsFrom exts mx idx nbF g0)[i]? = some r) : r = remQ exts mx idx (g0 + i) ∧ g0 + i < nbF := by
+  unfold remsFrom at h
+  rw [List.getElem?_map] at h
+  cases hr : (List.range' g0 (nbF - g0))[i]? with
+  | none => rw [hr] at h; cases h
+  | some g =>
+    rw [hr] at h; simp only [Option.map_some, Option.some.injEq] at h
+    have hlt : i < (List.range' g0 (nbF - g0)).length := by
+      apply Decidable.byContradiction; intro hc
+      rw [List.getElem?_eq_none (by omega)] at hr; cases hr
+    rw [List.getElem?_eq_getElem hlt, List.getElem_range'] at hr
+    simp only [Option.some.injEq] at hr
+    simp only [List.length_range'] at hlt
+    subst h
+    exact ⟨by rw [← hr]; simp, by omega⟩
+
+section
+variable {exts : Array Ext} {nbF : Nat} {mx : List Nat}
+
+theorem wFramesLoop_spec (hv : AllValid exts nbF) (hnf : nbF ≤ 48) (hmxl : mx.length = nbF)
+    (hmx : ∀ g, g < nbF → mx.getD g 0 ≤ exts.size)
+    (hlastp : ∀ g, g < nbF → mx.getD g 0 = 0 ∨ ∃ e, exts[mx.getD g 0 - 1]? = some e ∧ e.frame.toNat = g)
+    (f : Nat) (s : GSt) :
+    FInv exts mx nbF f s → s.written + total (remsFrom exts mx s.minIdx nbF f) = exts.size →
+    ∃ sF, (wFramesLoop exts nbF mx f s).res = .ok sF ∧ sF.written = exts.size ∧
+      content false (wFramesLoop exts nbF mx f s).ops = serAll exts.size (remsFrom exts mx s.minIdx nbF f) s.currFrame s.written := by
+  fun_induction wFramesLoop exts nbF mx f s with
+  | case1 f s hlt ih =>
+    intro hI hcount
+    rw [rdN_getD (by rw [hI.lmin]; exact hlt), W.lift_ok_bind, rdN_getD (by rw [hmxl]; exact hlt), W.lift_ok_bind]
+    simp only
+    rw [total_remsFrom_succ exts mx s.minIdx hlt] at hcount
+    rw [remsFrom_succ exts mx s.minIdx hlt, serAll_cons]
+    have hlaterrep : remsFrom exts mx s.repIdx nbF (f + 1) = remsFrom exts mx s.minIdx nbF (f + 1) := by
+      have := remsFrom_congr (exts := exts) (mx := mx) (rep := s.minIdx) (rep' := s.repIdx) (nbF := nbF) (g0 := f + 1) id
+        (fun g h1 h2 => by unfold remQ; rw [hI.eq g (by omega) h2]; rfl)
+      simpa using this
+    have hlen_later : (remsFrom exts mx s.minIdx nbF (f + 1)).length = nbF - (f + 1) := remsFrom_length _ _ _ _ _
+    have hav : ∀ e ∈ remQ exts mx s.minIdx f, ValidExt nbF e ∧ e.frame.toNat = f := fun e he => remQ_mem hv he
+    -- the repeat detection
+    have hdet : ∃ det, (if f + 1 < nbF then detectLoop exts mx nbF f (s.minIdx.getD f 0) (mx.getD f 0)
+          { rep := s.repIdx, repeatCount := 0, lastLong := none } else Res.ok { rep := s.repIdx, repeatCount := 0, lastLong := none }) = .ok det ∧
+        DetSpec exts mx nbF f (s.minIdx.getD f 0) (mx.getD f 0) { rep := s.repIdx, repeatCount := 0, lastLong := none } det
+          (blockR (remQ exts mx s.minIdx f) (remsFrom exts mx s.minIdx nbF (f + 1)))
+          ((remQ exts mx s.minIdx f).take (blockR (remQ exts mx s.minIdx f) (remsFrom exts mx s.minIdx nbF (f + 1)))) := by
+      by_cases hf1 : f + 1 < nbF
+      · simp only [hf1, if_true]
+        obtain ⟨det, h1, h2⟩ := detectLoop_spec hv hmxl hmx f hf1 (s.minIdx.getD f 0) (mx.getD f 0)
+          { rep := s.repIdx, repeatCount := 0, lastLong := none } (hmx f hlt) hI.lrep
+          (fun g h1 h2 => by simp only; rw [hI.eq g (by omega) h2]; exact hI.clean g (by omega) h2)
+        simp only [hlaterrep] at h2
+        have hbr : blockR (remQ exts mx s.minIdx f) (remsFrom exts mx s.minIdx nbF (f + 1)) =
+            repCount (remQ exts mx s.minIdx f) (remsFrom exts mx s.minIdx nbF (f + 1)) := by
+          unfold blockR
+          have : remsFrom exts mx s.minIdx nbF (f + 1) ≠ [] := by
+            intro h; have := congrArg List.length h; rw [hlen_later] at this; simp at this; omega
+          simp [this]
+        rw [hbr]
+        exact ⟨det, h1, h2⟩
+      · simp only [hf1, if_false]
+        have hl0 : remsFrom exts mx s.minIdx nbF (f + 1) = [] := remsFrom_end _ _ _ (by omega)
+        have hbr : blockR (remQ exts mx s.minIdx f) (remsFrom exts mx s.minIdx nbF (f + 1)) = 0 := by simp [blockR, hl0]
+        rw [hbr]
+        exact ⟨_, rfl, ⟨rfl, hI.lrep, fun _ _ => rfl, fun g h1 h2 => by omega, fun _ => ⟨rfl, rfl⟩, fun h => by omega, by simp [lastLongPos]⟩⟩
+    obtain ⟨det, hdeq, hspec⟩ := hdet
+    rw [hdeq, W.lift_ok_bind]
+    generalize hRdef : blockR (remQ exts mx s.minIdx f) (remsFrom exts mx s.minIdx nbF (f + 1)) = R at hspec ⊢
+    generalize hlastdef : blockLast exts.size (remQ exts mx s.minIdx f) (remsFrom exts mx s.minIdx nbF (f + 1)) s.written = last
+    have hcnt : det.repeatCount = R := by have := hspec.cnt; simp only at this; omega
+    by_cases hR0 : R = 0
+    · -- nothing repeated
+      subst hR0
+      obtain ⟨hz1, hz2⟩ := hspec.zero rfl
+      simp only at hz1 hz2
+      have hst : ({ written := s.written, currFrame := s.currFrame, minIdx := s.minIdx, repIdx := det.rep } : GSt) = s := by rw [hz1]
+      rw [hst, wFrameLoop_plain hv f det _ _ s (hmx f hlt) (fun i' _ _ h => by omega)]
+      rw [W.bind_of_ok _ rfl]
+      simp only
+      have hI' : FInv exts mx nbF (f + 1) { s with written := s.written + (seg exts (s.minIdx.getD f 0) (mx.getD f 0) f).length, currFrame := lastFrame s.currFrame (seg exts (s.minIdx.getD f 0) (mx.getD f 0) f) } := by
+        refine ⟨hI.lmin, hI.lrep, fun g h1 h2 => hI.eq g (by omega) h2, fun g h1 h2 => hI.clean g (by omega) h2,
+          fun g h1 h2 => hI.bound g (by omega) h2, ?_⟩
+        simp only
+        rw [lastFrame_same _ _ (fun e he => (hav e he).2)]
+        have := hI.cur
+        split <;> omega
+      obtain ⟨sF, h1, h2, h3⟩ := ih _ hI' (by simp only; unfold remQ at hcount; omega)
+      refine ⟨sF, h1, h2, ?_⟩
+      rw [content_append, h3, serOps_contentW hnf exts.size _ _ _ (fun e he => (hav e he).1)
+        (frameSorted_const hI.cur (fun e he => (hav e he).2)).1]
+      simp only [List.take_zero, List.drop_zero, serW, List.nil_append, Nat.lt_irrefl, if_false, false_and, repBlock_zero,
+        curAfter, lastFrame, Nat.add_zero, Nat.zero_mul, map_drop_zero, List.append_nil]
+      rfl
+    · sorry
+  | case2 f s hge =>
+    intro hI hcount
+    rw [remsFrom_end exts mx s.minIdx (by omega)] at hcount ⊢
+    refine ⟨s, rfl, by simpa [total] using hcount, ?_⟩
+    rw [serAll]; rfl
+
+end
 end Opus.ExtProofs
